@@ -10,7 +10,6 @@ Correspondence: the Lean model (`rd.build`: the add_* calls, input sort, `_set_r
 from __future__ import annotations
 
 import copy
-import hashlib
 
 from ref import cbor_ref as R
 from vlib import plutus_scen as P
@@ -21,6 +20,7 @@ CERT_NEEDS_SCRIPT = {1, 2, 8, 9, 10, 11, 12, 13}
 
 
 def strip(sc):
+    """the case as recorded / replayed (the scenario is already plain JSON)"""
     return sc
 
 
@@ -29,10 +29,28 @@ def ledger_account_key(a: bytes):
     return (a[0] & 0x0F, 0 if a[0] & 0x10 else 1, a[1:])
 
 
+BOOKKEEPING = {"_set_redeemer_index", "redeemers", "build_witness_set", "all_scripts", "scripts", "script_data_hash",
+               "add_script_input", "add_minting_script", "add_withdrawal_script", "add_certificate_script"}
+
+
+def in_plutus_bookkeeping(exc):
+    tb = exc.__traceback__
+    while tb is not None:
+        if tb.tb_frame.f_code.co_name in BOOKKEEPING and tb.tb_frame.f_code.co_filename.endswith("txbuilder.py"):
+            return True
+        tb = tb.tb_next
+    return False
+
+
 def judge(ctx, sc, run):
     """the property itself, on the transaction bytes"""
     x, cx = sc["x"], run.context
-    tv = P.TxView(run.tx.to_cbor())
+    try:
+        tv = P.TxView(run.tx.to_cbor())
+    except Exception as e:       # the independent reader cannot make sense of the bytes
+        ctx.violation("built transaction cannot be read back by the independent decoder: " + repr(e)[:200], strip(sc),
+                      "a well-formed transaction", run.tx.to_cbor().hex()[:400])
+        return None, False
     body = tv.body
     expected = {}          # (tag, index) -> marker
     needed = {}            # script hash -> description
@@ -203,9 +221,11 @@ def correspond(ctx, sc, run, tv):
     for r in b._redeemer_list:
         for mk in P.find_markers(R.dec(P.data_cbor(r.data))):
             by_marker[mk] = r
-    impl_rk = {"spend": [str(by_marker[a["marker"]].index) for a in att if a["kind"] == "spend"],
-               "mint": [str(by_marker[a["marker"]].index) for a in att if a["kind"] == "mint"],
-               "reward": [str(by_marker[a["marker"]].index) for a in att if a["kind"] == "reward"]}
+    def idx(a):
+        return str(by_marker[a["marker"]].index) if a["marker"] in by_marker else None
+    impl_rk = {"spend": [idx(a) for a in att if a["kind"] == "spend"],
+               "mint": [idx(a) for a in att if a["kind"] == "mint"],
+               "reward": [idx(a) for a in att if a["kind"] == "reward"]}
     if {k: rk[k] for k in impl_rk} != impl_rk:
         ctx.diff("ranks", strip(sc), {k: rk[k] for k in impl_rk}, impl_rk)
 
@@ -223,13 +243,17 @@ def evaluate(ctx, sc):
             ctx.traces += 1
             if m.get("error") != "ops":
                 ctx.diff("rd.build:refusal", strip(sc), m, "implementation refused a call: " + run.error)
-        elif run.error.startswith("crash") or run.error in ("value-error", "assert"):
+        elif (run.error.startswith("crash") or run.error in ("value-error", "assert")) and in_plutus_bookkeeping(run.exc):
+            # an undeclared exception out of the index / script / redeemer bookkeeping on a well-formed scenario
             ctx.violation("building a well-formed Plutus scenario raises " + type(run.exc).__name__ + ": " + str(run.exc)[:200],
                           strip(sc), "a transaction", run.error)
         ctx.skipped += 1
         ctx.case(strip(sc), nontrivial=False)
         return
     tv, ok = judge(ctx, sc, run)
+    if tv is None:
+        ctx.case(strip(sc))
+        return
     correspond(ctx, sc, run, tv)
     n_in = len(tv.body.inputs)
     ctx.count(f"inputs:{min(n_in, 8)}")
@@ -278,7 +302,7 @@ def run(ctx):
                             "(the model receives the selected inputs)"]
     for sc in corpus():
         evaluate(ctx, sc)
-    n = ctx.budget(230, 6000)
+    n = ctx.budget(230, 3000)
     for _ in range(n):
         evaluate(ctx, P.gen(ctx.rng))
 
